@@ -993,6 +993,11 @@ def main(tier: str, seed: int, replay: str | None = None) -> int:
         ('pam_blocks_checked', 1),
     ):
         run.require(c, m)
+    if tier == 'thorough':
+        # the block-permutation bookkeeping is only exercised when the
+        # routing actually takes a non-identity permutation
+        run.require('pam_nonidentity_block_perms', 1)
+        run.require('pam_swaps_stripped', 1)
     return run.finish(
         rule=(
             'seeded circuits of 2-8 qudits (1/2/3-qudit gates, barriers, optional QuickPartitioner blocks; '
